@@ -115,7 +115,9 @@ def observe_knn_decision(cols, k, rows, n, force):
         m._validate_parameters()
     if m.knn_dists is None:
         return True, 0, bool(force)
-    return False, int(m.knn_dists.shape[1]), bool(m.force_approximation_algorithm)
+    # "force flag afterwards" = whether fit will take the approximate-neighbour code path: the parameter itself, or the private
+    # decision recorded by the validation (the parameter is no longer overwritten)
+    return False, int(m.knn_dists.shape[1]), bool(m.force_approximation_algorithm or getattr(m, "_knn_takes_approximate_path", False))
 
 
 KNN_GRID = [(cols, 5, rows, n, force)
